@@ -54,6 +54,16 @@ def check(P: Project, R: Report) -> None:
     R.rule("R4", "no function that awaits send_message (directly or through a helper) swallows the two error classes, except the three documented boolean helpers, which must return False")
     errors = P.module(A.MOD_ERRORS)
 
+    # ---------------------------------------------------------------- R5: the tables read off by R1/R2 are the tables at run time
+    R.rule("R5", "the classification is a function of the code alone: nothing in the package changes NON_RETRYABLE_ERRORS or RETRYABLE_ERRORS after import — no in-place operator, mutating method, element store or global rebinding applied to them or to a local that is just another name for them (a copy may be changed freely)")
+    from ..tables import table_mutations
+
+    muts = table_mutations(P, A.MOD_ERRORS, {"NON_RETRYABLE_ERRORS", "RETRYABLE_ERRORS"})
+    for rel, line, qual, what in muts:
+        R.ob("R5", f"{qual}: the code tables are only read", False, f"{rel}:{line}",
+             f"{what}: from then on the same code is classified differently than before (and the two sets need no longer be disjoint) — the error class a caller sees depends on what ran earlier in the process")
+    R.ob("R5", "no construct in the package mutates the code tables", not muts, errors.rel + ":1", f"{len(muts)} mutation site(s)", sample="R5 code tables: read-only everywhere")
+
     # ---------------------------------------------------------------- R1
     non_retry = module_const(P, A.MOD_ERRORS, "NON_RETRYABLE_ERRORS")
     retry = module_const(P, A.MOD_ERRORS, "RETRYABLE_ERRORS")
